@@ -100,3 +100,11 @@ void h_visit(void) {
   WITNESS("valueless_argument", k2 == 3 && k1 != 3);
   HARNESS_END();
 }
+void h_big(void) {   /* 258 alternatives: indices 254..257 are distinct from each other, from small indices and from valueless */
+  IN(u8, which); IN(i32, x); VASSUME(which < 4 && x >= 0);
+  i64 out[5] = {0, 0, 0, 0, 0};
+  w_big(which, x, (u64*)out);
+  VASSERT(out[0] == 254 + which && out[1] == 0, "index() of a variant with 258 alternatives is the emplaced alternative, not valueless");
+  VASSERT(out[2] == x && out[3] == 254 + which && out[4] == 0, "get_if, copy construction and holds_alternative agree for high alternative indices");
+  HARNESS_END();
+}
